@@ -59,7 +59,11 @@ func BuildPrefix(name string, params refchain.Params, n uint32, custom func(h ui
 		p.Cb[h] = OP{Tx: b.Txs[0].TxID(), Vout: 0}
 		p.Blocks = append(p.Blocks, b)
 		prev = b.Hash()
+		if h%64 == 0 {
+			p.Model.Compact(8) // one full unspent set per block of a long prefix is not needed
+		}
 	}
+	p.Model.Compact(8)
 	p.Tip = prev
 	p.Height = n
 	e.Close()
